@@ -332,6 +332,8 @@ def run(prog: Program, rep, tier="quick"):
         raise AnalysisError(f"expected >= 1 loop over read_pkt_line() results in protocol.py, found {n_loops}")
     r19_6(prog, rep, m, F)
     r19_7(prog, rep, m, F)
+    r19_9(prog, rep, m, F)
+    r19_10(prog, rep, m, F)
     from sa.common import share
     from rules import c02
     share(rep, lambda: c02.run(prog, rep, tier), "R19.8", lambda o: o.rule == "R02.7" and o.func.startswith("PackStreamReader."),
@@ -370,6 +372,125 @@ def r19_6(prog, rep, m, F):
     wsep = [x.value for x in ast.walk(w.node) if isinstance(x, ast.Constant) and isinstance(x.value, bytes)]
     rep.ob("R19.6", PROTO, w.qual, "the writer separates capabilities with a single space", wsep == [b"", b" "] or sorted(wsep) == [b"", b" "] or wsep == [b" "],
            f"constants: {wsep}", w.node.lineno)
+
+
+WS = set(b" \t\n\r\x0b\x0c")
+
+
+def r19_9(prog, rep, m, F):
+    """want line: what the writer may leave after the last capability (the b" " before a possibly EMPTY join, the LF)
+    is stripped by the reader before it splits on the single space, or empties are filtered."""
+    rep.rule("R19.9", "TABLE-AGREE: the bytes the want-line writer appends after the capability list are stripped by extract_want_line_capabilities before the split")
+    cm = prog.module("dulwich/client.py")
+    w = cm.funcs.get("_handle_upload_pack_head")
+    if w is None:
+        raise AnalysisError("client._handle_upload_pack_head not found")
+    # the variable that is written as the first want line: holds COMMAND_WANT
+    wvars = {s_.targets[0].id for s_ in ast.walk(w.node) if isinstance(s_, ast.Assign) and isinstance(s_.targets[0], ast.Name)
+             and "COMMAND_WANT" in norm(s_.value)}
+    tail: set[int] = set()
+    n_join = 0
+    for s_ in ast.walk(w.node):
+        if isinstance(s_, (ast.Assign, ast.AugAssign)):
+            t = s_.targets[0] if isinstance(s_, ast.Assign) else s_.target
+            if isinstance(t, ast.Name) and t.id in wvars:
+                for c in ast.walk(s_.value):
+                    if isinstance(c, ast.Constant) and isinstance(c.value, bytes) and len(c.value) == 1 and c.value[0] in WS:
+                        tail.add(c.value[0])
+                n_join += sum(1 for c in ast.walk(s_.value) if isinstance(c, ast.Call) and isinstance(c.func, ast.Attribute) and c.func.attr == "join")
+    if not wvars or not n_join or not tail:
+        raise AnalysisError("_handle_upload_pack_head: construction of the first want line (COMMAND_WANT ... join(capabilities) ... LF) not found")
+    r = m.funcs.get("extract_want_line_capabilities")
+    stripped: set[int] = set()
+    for c in ast.walk(r.node):
+        if isinstance(c, ast.Call) and isinstance(c.func, ast.Attribute) and c.func.attr in ("rstrip", "strip"):
+            if not c.args:
+                stripped |= WS
+            else:
+                v = F.try_fold(c.args[0])
+                if not isinstance(v, bytes):
+                    raise AnalysisError(f"extract_want_line_capabilities: strip argument `{norm(c.args[0])}` not a constant")
+                stripped |= set(v)
+    filters_empty = any(isinstance(c, ast.comprehension) and c.ifs for c in ast.walk(r.node)) or \
+        any(isinstance(c, ast.Call) and callee_name(c) == "filter" for c in ast.walk(r.node))
+    if filters_empty:
+        stripped.add(0x20)
+    missing = tail - stripped
+    rep.ob("R19.9", PROTO, r.qual, f"bytes stripped before the split cover the writer's tail {sorted(bytes([b]) for b in tail)}", not missing,
+           f"the client writes `want <sha> ` + b' '.join(caps) + LF; with {[bytes([b]) for b in sorted(missing)]} left on the line the reader returns a phantom "
+           f"capability (b'' for an empty list) and the server refuses the request", r.node.lineno)
+
+
+def _self_attr(e, name=None):
+    return isinstance(e, ast.Attribute) and isinstance(e.value, ast.Name) and e.value.id == "self" and (name is None or e.attr == name)
+
+
+def r19_10(prog, rep, m, F):
+    """BufferedPktLineWriter.flush hands EVERYTHING in the buffer to the underlying writer.  Skipping the write is accepted
+    only on a test of the buffer contents themselves (getvalue()/tell()).  A skip decided by a byte counter is accepted only
+    if the counter is in step with the buffer at every call of flush(): no path from `self._wbuf.write(..)` to `self.flush()`
+    without an update of the counter."""
+    rep.rule("R19.10", "BufferedPktLineWriter.flush writes whatever the buffer holds; a skip is decided on the buffer, or on a counter that is in step with it at every flush() call")
+    cls = "BufferedPktLineWriter"
+    fl = m.funcs.get(f"{cls}.flush")
+    if fl is None:
+        raise AnalysisError(f"{cls}.flush not found")
+    g = cfg_of(prog, fl)
+    buf_fields = {s_.targets[0].attr for mf in m.funcs.values() if mf.qual.startswith(cls + ".") for s_ in ast.walk(mf.node)
+                  if isinstance(s_, ast.Assign) and _self_attr(s_.targets[0]) and isinstance(s_.value, ast.Call) and callee_name(s_.value) == "BytesIO"}
+    if not buf_fields:
+        raise AnalysisError(f"{cls}: BytesIO buffer field not found")
+
+    def mentions_buf(e):
+        return any(_self_attr(x) and x.attr in buf_fields for x in ast.walk(e))
+    datavars = {s_.targets[0].id for s_ in ast.walk(fl.node) if isinstance(s_, ast.Assign) and isinstance(s_.targets[0], ast.Name) and mentions_buf(s_.value)}
+    emits = [i for i, n in g.nodes.items() for c in node_calls(n) if _self_attr(c.func) and c.func.attr not in ("flush",) and c.args
+             and (mentions_buf(c.args[0]) or any(isinstance(x, ast.Name) and x.id in datavars for x in ast.walk(c.args[0])))]
+    if not emits:
+        raise AnalysisError(f"{cls}.flush: call handing the buffer to the underlying writer not found")
+    on_buffer, on_counter = {}, {}
+    for i, n in g.nodes.items():
+        if n.kind != "test":
+            continue
+        names = {x.id for x in ast.walk(n.ast) if isinstance(x, ast.Name)} - {"self", "len"}
+        attrs = {x.attr for x in ast.walk(n.ast) if _self_attr(x)}
+        if (names and names <= datavars and not attrs - buf_fields) or (not names and attrs and attrs <= buf_fields):
+            on_buffer[i] = n
+        elif not names and attrs and not attrs & buf_fields:
+            on_counter[i] = (n, attrs)
+    bad = must_pass(g, [g.exit_normal], emits, edge_ok=lambda a, b, l: a not in on_buffer)
+    ok, why, line = not bad, "", fl.node.lineno
+    if bad:
+        # which counter decides the skip?  is it in step with the buffer whenever flush() is called?
+        bad2 = must_pass(g, [g.exit_normal], emits, edge_ok=lambda a, b, l: a not in on_buffer and a not in on_counter)
+        counters = set().union(*[a for _, a in on_counter.values()]) if on_counter else set()
+        if bad2 or not counters:
+            why = "a path through flush() returns without handing the buffer to the underlying writer and without having tested the buffer"
+        else:
+            lag = None
+            for mf in m.funcs.values():
+                if not mf.qual.startswith(cls + ".") or "#" in mf.qual or mf is fl:
+                    continue
+                gg = cfg_of(prog, mf)
+                puts = [i for i, n in gg.nodes.items() for c in node_calls(n) if isinstance(c.func, ast.Attribute) and c.func.attr == "write"
+                        and _self_attr(c.func.value) and c.func.value.attr in buf_fields]
+                upd = [i for i, n in gg.nodes.items() if isinstance(n.ast, (ast.Assign, ast.AugAssign)) and any(
+                    _self_attr(x) and x.attr in counters and isinstance(x.ctx, ast.Store) for x in ast.walk(n.ast))]
+                fcalls = [i for i, n in gg.nodes.items() for c in node_calls(n) if _self_attr(c.func, "flush")]
+                for pnode in puts:
+                    late = must_pass(gg, fcalls + [gg.exit_normal], upd, start=[b for b, l in gg.succ[pnode]])
+                    if late:
+                        lag = (mf, gg.nodes[pnode].line, gg.nodes[late[0]].line)
+                        break
+                if lag:
+                    break
+            if lag:
+                why = (f"flush() skips the write when {sorted(counters)} is zero, but {lag[0].qual} puts bytes into the buffer (line {lag[1]}) and reaches "
+                       f"flush()/return (line {lag[2]}) before the counter is updated: a line that exactly fills an empty buffer is never written")
+                line = lag[1]
+            else:
+                ok = True
+    rep.ob("R19.10", PROTO, fl.qual, "every return of flush() has handed the buffer contents to the underlying writer (or found the buffer empty)", ok, why, line)
 
 
 def r19_7(prog, rep, m, F):
